@@ -141,7 +141,7 @@ class ProgGen:
         c = r.random()
         if c < 0.04:
             return "D", r.choice(["'2024-01-15 10:30'", "'March 3 2021 23:59'", "'2001-02-03T04:05:06'", "'1999-12-31'",
-                                  "1700000000", "'1700000000'", "now", "'today'"])
+                                  "86400", "'86400'", "now", "'today'"])
         if c < 0.3:
             return "S", r.choice(self.S_PATHS) if r.random() < 0.8 else repr(r.choice(WORDS[:6])).replace('"', "'")
         if c < 0.5:
@@ -186,7 +186,7 @@ class ProgGen:
             return "nosuchfilter", "ANY"
         if kind == "D":
             return r.choice([("datetime", "S"), ("datetime: format: 'long'", "S"), ("datetime: format: 'short'", "S"),
-                             ("date: '%Y-%m-%d %H:%M'", "S"), ("date: '%A %d %B'", "S"), ("date: '%s'", "S"),
+                             ("date: '%Y-%m-%d %H:%M'", "S"), ("date: '%A %d %B'", "S"), ("date: '%j'", "S"),
                              ("datetime: format: 'EEEE, d MMMM y HH:mm zzz'", "S")])
         if kind == "S":
             return r.choice([
@@ -338,7 +338,7 @@ class ProgGen:
 
     def n_assign(self, depth):
         r = self.rng
-        v = r.choice(["x", "y", "acc", "who", "item", "s", "n"])
+        v = r.choice(["x", "y", "acc", "who", "item", "s", "t"])  # never n/m: they bound ranges and limits
         self.locals.append(v)
         c = r.random()
         if c < 0.15:
@@ -436,7 +436,7 @@ class ProgGen:
 
     def n_incdec(self, depth):
         r = self.rng
-        return self.tag(f"{r.choice(['increment', 'decrement'])} {r.choice(['c1', 'c2', 'n', 'x'])}")
+        return self.tag(f"{r.choice(['increment', 'decrement'])} {r.choice(['c1', 'c2', 'flag', 'x'])}")
 
     def n_echo(self, depth):
         return self.tag("echo " + (self.ternary() if self.rng.random() < 0.2 else self.filtered()))
